@@ -115,9 +115,14 @@ pub fn run(args: &Args) {
             }
         }
         let mut grids: Vec<std::collections::BTreeMap<(u32, u32), String>> = vec![Default::default(); nsheets as usize];
+        // some exports are far larger than any internal block size (64 KiB and more of multi-byte text)
+        let big = k % 37 == 11;
+        if big {
+            feats.insert("export-larger-than-64KiB".to_string());
+        }
         for si in 0..nsheets as usize {
-            let ncells = if si as u32 == active { rng.range(1, 14) } else { rng.range(0, 4) };
-            let (w, h) = (rng.range(1, 6), rng.range(1, 7));
+            let ncells = if si as u32 == active { if big { 24000 } else { rng.range(1, 14) } } else { rng.range(0, 4) };
+            let (w, h) = if big && si as u32 == active { (3, 8000) } else { (rng.range(1, 6), rng.range(1, 7)) };
             for _ in 0..ncells {
                 let (c, r) = (rng.range(1, w), rng.range(1, h));
                 let ws = book.get_sheet_mut(&si).unwrap();
